@@ -275,6 +275,95 @@ def run(prop, tier):
                     wv = chk_reads(data, w * ch, ops_k, outs, restart=(kind != "stdin"), filelike=True)
                     if wv:
                         viol = {"what": wv, **meta[-1], "impl_outputs": outs}
+        # ---- live producers: a raw "file" that is a named pipe and a standard input that is a real pipe, both fed in bursts that are
+        # aligned neither with samples nor with requests (each read must still return exactly min(n, remaining) whole samples)
+        import threading
+        import time as _time
+        import auditok.io as aio_
+
+        def feeder(open_w, payload, burst):
+            def go():
+                f = open_w()
+                try:
+                    for i in range(0, len(payload), burst):
+                        f.write(payload[i:i + burst]); f.flush()
+                        _time.sleep(0.002)
+                finally:
+                    f.close()
+            t = threading.Thread(target=go, daemon=True)
+            t.start()
+            return t
+        for it in range(6 if quick else 40):
+            sr = r.choice([10, 8000]); w, ch = r.choice([(2, 1), (2, 2), (1, 3), (4, 1)])
+            bps_ = w * ch
+            n = r.randint(150, 600)
+            data = bytes(r.getrandbits(8) for _ in range(n * bps_))
+            burst = r.choice([bps_ * 40 + 1, 97, 251, bps_ * 33 - 1])
+            req = r.choice([7, 50, 64, 100])
+            for kind in ("raw file that is a named pipe", "standard input that is a pipe"):
+                try:
+                    if kind.startswith("raw"):
+                        path = os.path.join(tmpd, "fifo_%d.raw" % it)
+                        os.mkfifo(path)
+                        th = feeder(lambda: open(path, "wb"), data, burst)
+                        src = aio_.RawAudioSource(path, sr, w, ch)
+                    else:
+                        rfd, wfd = os.pipe()
+                        th = feeder(lambda: os.fdopen(wfd, "wb"), data, burst)
+
+                        class PipeStdin:
+                            buffer = os.fdopen(rfd, "rb")
+                        old_stdin = sys.stdin
+                        sys.stdin = PipeStdin
+                        try:
+                            src = aio_.StdinAudioSource(sr, w, ch)
+                        finally:
+                            sys.stdin = old_stdin
+                    src.open()
+                    got, pos = [], 0
+                    while True:
+                        b = src.read(req)
+                        if b is None:
+                            break
+                        want = min(req, n - pos) * bps_
+                        if viol is None and (len(b) != want or bytes(b) != data[pos * bps_:pos * bps_ + want]):
+                            viol = {"what": "%s fed in bursts of %d bytes: read(%d) at sample %d returned %d bytes (%.2f samples), expected exactly min(n, remaining) = %d samples" % (
+                                kind, burst, req, pos, len(b), len(b) / bps_, want // bps_), "format(sr,sw,ch)": [sr, w, ch], "samples": n}
+                        pos += len(b) // bps_
+                        if len(got) > 2000:
+                            break
+                        got.append(1)
+                    if viol is None and pos != n:
+                        viol = {"what": "%s fed in bursts of %d bytes: %d samples were delivered before None, the stream has %d" % (kind, burst, pos, n), "format(sr,sw,ch)": [sr, w, ch]}
+                    src.close()
+                    th.join(5)
+                except Exception as e:
+                    viol = viol or {"what": "%s: %s: %s" % (kind, type(e).__name__, e)}
+        # ---- request sizes that are integers of another type (numpy scalars): the same chunks as for int
+        import numpy as _np
+        for it in range(10 if quick else 60):
+            sr = 100; w, ch = r.choice([(2, 1), (2, 2), (1, 3)])
+            bps_ = w * ch
+            n = r.randint(5, 40)
+            data = bytes(r.getrandbits(8) for _ in range(n * bps_))
+            sizes = [r.randint(1, 12) for _ in range(6)]
+            raw_p = os.path.join(tmpd, "np.raw"); wav_p = os.path.join(tmpd, "np.wav")
+            open(raw_p, "wb").write(data)
+            with wave.open(wav_p, "wb") as f:
+                f.setframerate(sr); f.setsampwidth(w); f.setnchannels(ch); f.writeframes(data)
+            for kind, mk in (("buffer", lambda: aio_.BufferAudioSource(data, sr, w, ch)), ("raw", lambda: aio_.RawAudioSource(raw_p, sr, w, ch)), ("wav", lambda: aio_.WaveAudioSource(wav_p))):
+                for ty in (_np.int64, _np.int32, _np.uint8):
+                    try:
+                        a, b = mk(), mk()
+                        a.open(); b.open()
+                        for k in sizes:
+                            x, y = a.read(k), b.read(ty(k))
+                            if viol is None and x != y:
+                                viol = {"what": "%s source: read(%s(%d)) returned %s, read(%d) returned %s" % (kind, ty.__name__, k, "None" if y is None else "%d bytes" % len(y), k, "None" if x is None else "%d bytes" % len(x)),
+                                        "format(sr,sw,ch)": [sr, w, ch], "samples": n, "sizes": sizes}
+                        a.close(); b.close()
+                    except Exception as e:
+                        viol = viol or {"what": "%s source read with %s sizes: %s: %s" % (kind, ty.__name__, type(e).__name__, e)}
         # ---- single requests larger than any plausible internal buffer (judged by the read contract alone)
         big_n, bw, bch = (300000, 2, 3) if quick else (700000, 2, 3)
         big = bytes((i * 7 + (i >> 9)) % 251 for i in range(big_n * bw * bch))
